@@ -112,6 +112,35 @@ def strip(ln):
     return {k: v for k, v in ln.items() if k != "obs"}
 
 
+MUTATING_DOC = ("dput", "dremove", "dinsert", "ddelete", "ddeleteMany", "dupdate")
+
+
+def plain_doc(case):
+    """C03 for documents: every document call made through a handle that sits in the live tree returns what the plain
+    JSON tree returns (Spec/PlainDoc.step, evaluated by the Lean driver on the state before the call) and leaves the
+    plain tree's next value; a mutating call through a handle of a deleted container is refused.  Compared with the
+    IMPLEMENTATION's observation (objects compared as maps, i.e. canonical)."""
+    for idx, (ln, mo) in enumerate(case):
+        if mo is None or ln.get("k") != "call" or "plain" not in mo:
+            continue
+        io = ln.get("obs", {})
+        pl = mo["plain"]
+        if io.get("panic") or io.get("hang"):
+            return [dict(step=idx, what="panic" if io.get("panic") else "hang", detail=dict(cmd=strip(ln), msg=io.get("panicMsg")))]
+        if not pl.get("located"):
+            if ln.get("m") in MUTATING_DOC and not io.get("err"):
+                return [dict(step=idx, what="plain:deleted-container-accepted", detail=dict(cmd=strip(ln), impl=io))]
+            continue
+        if int(io.get("err") or 0) != int(pl.get("err") or 0):
+            return [dict(step=idx, what="plain:err", detail=dict(cmd=strip(ln), impl=io.get("err"), plain=pl.get("err")))]
+        if "view" in io and first_diff(io["view"], pl["view"]):
+            return [dict(step=idx, what="plain:view", detail=dict(cmd=strip(ln), impl=io["view"], plain=pl["view"]))]
+        if not io.get("err") and "ret" in io and first_diff(io["ret"], pl.get("ret")):
+            return [dict(step=idx, what="plain:ret", detail=dict(cmd=strip(ln), impl=io.get("ret"), plain=pl.get("ret")))]
+    return []
+
+
+
 def spec(case):
     """C02: every replica's view/size equals the spec denotation of the operations it has applied."""
     out = []
@@ -859,4 +888,4 @@ def hash_unique(case):
 
 ORACLES = dict(rt_converge=rt_converge, usable_after_refusal=usable_after_refusal, hash_unique=hash_unique, snapshot_replay=snapshot_replay, goroutines_serial=goroutines_serial, fault_recovers=fault_recovers, enc_roundtrip=enc_roundtrip, patch_target=patch_target, loginv=loginv, sconverge=sconverge, refused_noop=refused_noop,
                isolation=isolation, notify=notify, contract=contract, corr=corr, spec=spec, converge=converge, err_noop=err_noop, no_panic=no_panic,
-               seq_gapless=seq_gapless, list_order=list_order, twin=twin, tx_atomic=tx_atomic)
+               seq_gapless=seq_gapless, list_order=list_order, twin=twin, tx_atomic=tx_atomic, plain_doc=plain_doc)
